@@ -27,7 +27,8 @@ Queries == {"num_sections", "section_by_name", "get_section", "section_index", "
             "symbol_by_name", "get_symbol", "num_symbols", "dyn_tag", "num_tags", "needed", "reloc_tables",
             "cu_at", "cu_containing", "top_die", "die_at", "die_attrs", "parent", "children", "follow_ref",
             "line_program", "cfi", "eh_cfi", "decoded", "aranges", "pubnames", "loc_of_die", "ranges_of_die",
-            "versions", "hash_lookup", "attributes", "ehabi", "has_dwarf", "address_offsets", "section_in_segment"}
+            "versions", "hash_lookup", "attributes", "ehabi", "has_dwarf", "address_offsets", "section_in_segment",
+            "section_data", "segment_data", "string_at"}
 GenKinds == {"iter_sections", "iter_segments", "iter_symbols", "iter_tags", "iter_notes", "iter_CUs", "iter_DIEs",
              "iter_children", "iter_siblings", "iter_location_lists", "iter_range_lists", "iter_relocations",
              "iter_subsections", "iter_versions", "line_entries"}
@@ -50,7 +51,12 @@ P2 == {<<H("start", k, a, b, 1, ""), H("start", k, a, b, 2, ""), H("advance", k,
         k \in GenKinds, a \in PatIx, b \in PatIx}
 P3 == {<<H("start", k, a, b, 1, ""), H("advance", k, a, b, 1, ""), H("query", q, c, 1, 0, ""), H("advance", k, a, b, 1, ""),
          H("advance", k, a, b, 1, "")>> : k \in GenKinds, a \in PatIx, b \in {0}, q \in Queries, c \in PatIx}
-PatternSet == P1 \cup P2 \cup P3
+\*  P4  the same query twice with something in between (repeated identical queries return equal results; objects obtained
+\*      by the first call are kept and used again by the second)
+P4 == {<<H("query", q, a, b, 0, ""), x, H("query", q, a, b, 0, "")>> :
+        q \in Queries, a \in PatIx, b \in PatIx,
+        x \in {H("perturb", "all", 0, 0, 0, w) : w \in Wheres} \cup {H("query", "section_by_name", 1, 1, 0, ""), H("query", "die_at", 0, 1, 0, "")}}
+PatternSet == P1 \cup P2 \cup P3 \cup P4
 
 Init == /\ gens = <<>> /\ pick = ""
         /\ IF Patterns THEN hist \in PatternSet ELSE hist = <<>>
